@@ -326,7 +326,8 @@ def nd_rows(I, st, ref):
     if len(e.shape) == 1:
         return list(e.data)
     step = size(e.shape[1:])
-    return [st.alloc(_keep_u8(e, NdE(e.shape[1:], e.data[i * step : (i + 1) * step]))) for i in range(e.shape[0])]
+    return [alloc_view(st, ref, _keep_u8(e, NdE(e.shape[1:], e.data[i * step : (i + 1) * step])), list(range(i * step, (i + 1) * step)))
+            for i in range(e.shape[0])]
 
 
 def _index_list(I, st, idx, n):
@@ -397,7 +398,7 @@ def nd_getitem(I, st, ref, idx):
             r = NdE((len(d),), d)
             if "dtype" in e.__dict__:
                 r.dtype = e.dtype
-            yield st1, st1.alloc(r)
+            yield st1, alloc_view(st1, ref, r, list(range(e.shape[0]))[sl])
         return
     try:
         shape, pos = resolve_index(I, st, e.shape, idx)
@@ -407,7 +408,42 @@ def nd_getitem(I, st, ref, idx):
     if shape == ():
         yield st, e.data[pos[0]]
     else:
-        yield st, st.alloc(_keep_u8(e, NdE(shape, [e.data[p] for p in pos])))
+        r = _keep_u8(e, NdE(shape, [e.data[p] for p in pos]))
+        yield st, (alloc_view(st, ref, r, pos) if _basic_index(idx) else st.alloc(r))
+
+
+def _basic_index(idx):
+    """ints and slices only: numpy returns a VIEW of the array (fancy / mask indexing returns a copy)"""
+    comps = idx if isinstance(idx, tuple) else (idx,)
+    return all((isinstance(c, int) and not isinstance(c, bool)) or isinstance(c, SliceVal) for c in comps)
+
+
+def alloc_view(st, base_ref, view, pos):
+    """numpy shares the memory of an array and of its basic slices / rows / transposes / reshapes.  The model stores
+    each with its own element list and keeps them in step: the view records (root array, its positions in the root),
+    the root records its views, and every write (sync_views) is carried to the root and from there to all its views."""
+    base = st.get(base_ref)
+    vo = getattr(base, "viewof", None)
+    if vo is not None:  # a view of a view: link it to the root
+        base_ref, pos = vo[0], [vo[1][p] for p in pos]
+        base = st.get(base_ref)
+    view.viewof = (base_ref, tuple(pos))
+    vref = st.alloc(view)
+    base.views = tuple(getattr(base, "views", ())) + ((vref, tuple(pos)),)
+    return vref
+
+
+def sync_views(st, ref):
+    """after a write into the array `ref`: carry it to the root it is a view of, and to every view of that root"""
+    e = st.get(ref)
+    vo = getattr(e, "viewof", None)
+    if vo is not None:
+        root = st.get(vo[0])
+        for k, p in enumerate(vo[1]):
+            root.data[p] = e.data[k]
+        e = root
+    for vref, pos in getattr(e, "views", ()):
+        st.get(vref).data[:] = [e.data[p] for p in pos]
 
 
 def nd_setitem(I, st, ref, idx, v):
@@ -429,6 +465,7 @@ def nd_setitem(I, st, ref, idx, v):
             yield st, exc("IndexError", "index out of bounds")
             return
         e.data[idx % e.shape[0]] = v
+        sync_views(st, ref)
         yield st, None
         return
     try:
@@ -449,6 +486,7 @@ def nd_setitem(I, st, ref, idx, v):
     isfloat = any(is_reallike(x) for x in e.data)
     for p, x in zip(pos, vals):
         e.data[p] = tofloat(x) if isfloat else x
+    sync_views(st, ref)
     yield st, None
 
 
@@ -515,7 +553,8 @@ def nd_getattr(I, st, ref, name):
             yield st, ref
         else:
             r, c = e.shape
-            yield st, st.alloc(NdE((c, r), [e.data[i * c + j] for j in range(c) for i in range(r)]))
+            tpos = [i * c + j for j in range(c) for i in range(r)]
+            yield st, alloc_view(st, ref, NdE((c, r), [e.data[p] for p in tpos]), tpos)
     elif name == "transpose":
         # a.transpose() without arguments == a.T (axes reversed); only for <= 2 axes, as .T above
         def _tr(I, st, *axes):
@@ -525,7 +564,8 @@ def nd_getattr(I, st, ref, name):
             if len(ee.shape) != 2:
                 return ref
             r, c = ee.shape
-            return st.alloc(NdE((c, r), [ee.data[i * c + j] for j in range(c) for i in range(r)]))
+            tpos = [i * c + j for j in range(c) for i in range(r)]
+            return alloc_view(st, ref, NdE((c, r), [ee.data[p] for p in tpos]), tpos)
         yield st, simple(_tr)
     elif name == "dot":
         yield st, simple(lambda I, st, b: dot(I, st, ref, b))
@@ -553,7 +593,7 @@ def nd_getattr(I, st, ref, name):
             return conv(unflatten(ee.shape, ee.data))
         yield st, simple(_tl)
     elif name == "copy":
-        yield st, simple(lambda I, st: st.alloc(st.get(ref).copy()))
+        yield st, simple(lambda I, st: st.alloc(st.get(ref).detached()))
     elif name == "flatten" or name == "ravel":
         def _flat(I, st, order="C"):
             # The model keeps the elements in LOGICAL row-major order and has no notion of memory layout: order="C" (the
@@ -564,6 +604,8 @@ def nd_getattr(I, st, ref, name):
             ne = NdE((size(ee.shape),), list(ee.data))
             if getattr(ee, "dtype", None) is not None:
                 ne.dtype = ee.dtype
+            if name == "ravel":  # a view of the (row-major) array; flatten always copies
+                return alloc_view(st, ref, ne, list(range(len(ne.data))))
             return st.alloc(ne)
         yield st, simple(_flat)
     elif name == "astype":
@@ -629,7 +671,7 @@ def nd_getattr(I, st, ref, name):
             ne = NdE(tuple(shape), ee.data)
             if "dtype" in ee.__dict__:
                 ne.dtype = ee.dtype
-            return st.alloc(ne)
+            return alloc_view(st, ref, ne, list(range(len(ne.data))))
         yield st, simple(_reshape_m)
     elif name == "dtype":
         yield st, DtypeVal(dtype_of(e))
@@ -928,8 +970,10 @@ def make_module(I):
         if size(shape) != len(d):
             return exc("ValueError", "cannot reshape array of size %d into shape %r" % (len(d), shape))
         e = NdE(shape, d)
-        if isinstance(v, Ref) and st.get(v).kind == "nd" and "dtype" in st.get(v).__dict__:
-            e.dtype = st.get(v).dtype
+        if isinstance(v, Ref) and st.get(v).kind == "nd":
+            if "dtype" in st.get(v).__dict__:
+                e.dtype = st.get(v).dtype
+            return alloc_view(st, v, e, list(range(len(d))))
         return st.alloc(e)
 
     reg("reshape", _reshape)
@@ -1135,11 +1179,13 @@ def nd_set_mask(I, st, ref, mask, v):
         if isinstance(c, bool):
             if c:
                 st1.get(ref).data[k] = val
+                sync_views(st1, ref)
             yield from rec(st1, k + 1)
             return
         for st2, ok in I.branch(st1, c):
             if ok:
                 st2.get(ref).data[k] = val
+                sync_views(st2, ref)
             yield from rec(st2, k + 1)
 
     yield from rec(st, 0)
